@@ -9,6 +9,7 @@ import (
 	"go/token"
 	"go/types"
 	"math/big"
+	"os"
 	"sort"
 	"strings"
 
@@ -45,6 +46,8 @@ type Frame struct {
 	curBlock   *ssa.BasicBlock
 	loops      []*loopCtx
 	nilChecked map[string]*ssa.BasicBlock
+	siteDone   map[string]bool
+	siteHits   int
 }
 
 type retInfo struct {
@@ -301,6 +304,9 @@ func (e *Engine) execBlock(fr *Frame, b *ssa.BasicBlock, st *State, in map[*ssa.
 		}
 		if st.pc == "false" {
 			return
+		}
+		if fr.top && e.curContract != nil && len(e.curContract.SiteAsserts) > 0 {
+			e.siteAsserts(fr, st, instr)
 		}
 		switch v := instr.(type) {
 		case *ssa.If:
@@ -1650,4 +1656,57 @@ func (e *Engine) runDefers(fr *Frame, st *State, at *ssa.BasicBlock) {
 		}
 		e.callResolved(fr, st, d.call, d.fn, d.args, nil, d.inst.Pos())
 	}
+}
+
+// siteAsserts checks the contract's assert_at clauses before the first instruction
+// (in execution order within a block) of each matching source line.
+func (e *Engine) siteAsserts(fr *Frame, st *State, instr ssa.Instruction) {
+	pos := instr.Pos()
+	if !pos.IsValid() {
+		return
+	}
+	p := e.prog.Fset.Position(pos)
+	line := e.sourceLine(p.Filename, p.Line)
+	if line == "" {
+		return
+	}
+	for k, sa := range e.curContract.SiteAsserts {
+		if !strings.Contains(line, sa.Text) {
+			continue
+		}
+		key := fmt.Sprintf("%d|%s|%d|%p", k, p.Filename, p.Line, fr.curBlock)
+		if fr.siteDone == nil {
+			fr.siteDone = map[string]bool{}
+		}
+		if fr.siteDone[key] {
+			continue
+		}
+		fr.siteDone[key] = true
+		fr.siteHits++
+		env := e.loopEnv(fr, st)
+		t, err := e.tryEvalBool(env, sa.Cl.Expr)
+		if err != nil {
+			panic(engErr(fmt.Sprintf("assert_at %q: %v", sa.Text, err)))
+		}
+		ob := e.vc.oblige(fmt.Sprintf("assert_at:%d#", k+1), st.pc, t, fmt.Sprintf("before %q: %s", sa.Text, sa.Cl.Text))
+		ob.Props = sa.Cl.Props
+		e.vc.assume(st.pc, t)
+	}
+}
+
+func (e *Engine) sourceLine(file string, line int) string {
+	if e.srcCache == nil {
+		e.srcCache = map[string][]string{}
+	}
+	lines, ok := e.srcCache[file]
+	if !ok {
+		if b, err := os.ReadFile(file); err == nil {
+			lines = strings.Split(string(b), "\n")
+		}
+		e.srcCache[file] = lines
+	}
+	if line-1 < 0 || line-1 >= len(lines) {
+		return ""
+	}
+	return lines[line-1]
 }
